@@ -116,6 +116,13 @@ CHECKS = {
          "7 (60) timing configurations incl. long back-pressure, stall oracle with deviation bound 1 (2). Responses and the final image must equal some real-time-consistent sequential execution.",
          "Trusted: vt/memref.py and the interleaving search. MagicMemoryFL is exercised only through the CL/stream wrappers; sub-word AMOs are outside the alphabet.",
          "DESIGN.md 6.C18", "E1 E4"),
+ "C20": ("exploration",
+         "bounded exhaustive enumeration of instruction windows x manager values x timing configurations x deviation-bounded stall schedules on ProcFL/CL/RTL vs an independent ISA interpreter; all 4^8 checksum inputs",
+         "Every window of <= 2 instructions over a 19-letter alphabet (ALU ops in both register orders, lw/sw on two words, forward and counted backward bne, csrr/csrw of mngr2proc, "
+         "proc2mngr and xcelreg0, filler), every 3-window over a 9-letter sub-alphabet (4 in thorough), and far forward/backward branches around the +-2 KiB immediate boundary run "
+         "on the three processor models in a harness with the real MagicMemoryCL; sink messages and final data memory must equal the interpreter's. 65536 checksum inputs through FL/CL/RTL.",
+         "Trusted: vt/isa.py (interpreter + encoder, encoder cross-checked against the repo's assembler in selftest). Timing space is a fixed config list + stall deviation 1.",
+         "DESIGN.md 6.C20", "E1 E4"),
 }
 
 NOT_YET = {}
